@@ -30,6 +30,9 @@ def run(tier):
         check_sin_cos(chk, F, ty)
         check_atan2(chk, F, ty)
         check_signed(chk, F, ty)
+    # base case of the induction over nesting: the plain-float instances return what the standard library returns
+    from . import c06
+    c06.float_instances(chk, F)
     chk.floor("chain rule bodies", chk.analysed.get("chain rule bodies", 0), 8)
     chk.floor("closed-form bodies", chk.analysed.get("closed-form bodies", 0), 8 * 24)
     chk.floor("derivative links", chk.analysed.get("derivative links", 0), 384)
@@ -173,11 +176,14 @@ def check_signed(chk, F, ty):
                     k, d, b, f = tr[0]
                     # key: ("cmp", op, keyA, keyB): positive difference <=> self.re > other.re
                     A, B = Poly.var("self.re"), Poly.var("other.re")
+                    # the comparison is made on the innermost floats re(self.re), re(other.re) (DualNum::re) or on the parts themselves
+                    forms = [(A, B), (apply_fn("re", A), apply_fn("re", B))]
                     gt = None
-                    if k[1] == "<=" and k[2] == A.key() and k[3] == B.key():
-                        gt = not b
-                    elif k[1] == "<" and k[2] == B.key() and k[3] == A.key():
-                        gt = b
+                    for (a_, b_) in forms:
+                        if k[1] == "<=" and k[2] == a_.key() and k[3] == b_.key():
+                            gt = not b
+                        elif k[1] == "<" and k[2] == b_.key() and k[3] == a_.key():
+                            gt = b
                     if gt is None:
                         chk.ob(key0 + "|guard", False, "abs_sub compares self.re with other.re", body_loc(F, body), found=d)
                         continue
